@@ -1768,6 +1768,14 @@ EGLPNUM_TYPENAME_QSLIB_INTERFACE int EGLPNUM_TYPENAME_QSread_and_load_basis (
 	}
 
 	rval = EGLPNUM_TYPENAME_ILLlib_readbasis (p->lp, p->basis, filename);
+	if (rval)
+	{
+		/* the record was emptied above and could not be refilled: drop it, an
+		 * empty record would be taken for a basis by QSwrite_basis/QSget_basis */
+		EGLPNUM_TYPENAME_ILLlp_basis_free (p->basis);
+		ILL_IFFREE(p->basis);
+		p->factorok = 0;
+	}
 	CHECKRVALG (rval, CLEANUP);
 
 	p->factorok = 0;
